@@ -552,8 +552,11 @@ ElemNumber::getCountString(
         if (DoubleSupport::isNaN(theValue) == true ||
             DoubleSupport::isPositiveInfinity(theValue) == true ||
             DoubleSupport::isNegativeInfinity(theValue) == true ||
-            DoubleSupport::lessThan(theValue, 0.5) == true)
+            DoubleSupport::lessThan(theValue, 0.5) == true ||
+            theValue >= 18446744073709551616.0)
         {
+            // (The last case: a value CountType cannot hold.  Converting
+            // it is undefined; it is written as a plain number.)
             NumberToDOMString(theValue, theResult);
         }
         else
